@@ -120,6 +120,33 @@ fn w_specs(thorough: bool) -> Vec<FileSpec> {
 				v.push(FileSpec { codec, level: 0, sk, abs, ops: vec![Op::S, x.clone(), Op::S, Op::F, x.clone()], meta });
 			}
 		}
+		// incompressible blocks whose STORED size crosses the encoder's 32 KiB start buffer and its
+		// doublings (64 KiB, 128 KiB): one big datum, several ~1000-byte noisy datums, many small datums
+		let noisy: Vec<(Sk, Op, u32)> = vec![
+			(Sk::Bytes, Op::Big { s: 40000, inc: true }, 40000),
+			(Sk::Bytes, Op::Mid { n: 48, len: 1000, inc: true }, 64 * 1024),
+			(Sk::Str, Op::Mid { n: 60, len: 1000, inc: true }, 60000),
+			(Sk::Long, Op::Run { s: 48000, inc: true }, 48000),
+			(Sk::Bytes, Op::Big { s: 70000, inc: true }, 70000),
+			(Sk::Bytes, Op::Mid { n: 70, len: 1000, inc: true }, 70000),
+			(Sk::Rec, Op::Mid { n: 100, len: 1000, inc: true }, 100000),
+			(Sk::Bytes, Op::Run { s: 80000, inc: true }, 80000),
+			(Sk::Bytes, Op::Big { s: 140000, inc: true }, 140000),
+			(Sk::Bytes, Op::Mid { n: 140, len: 1000, inc: true }, 140000),
+			(Sk::Str, Op::Big { s: 200000, inc: true }, 200000),
+		];
+		for (sk, x, abs) in noisy {
+			v.push(FileSpec { codec, level: 0, sk, abs, ops: vec![Op::S, x.clone(), Op::S], meta: 0 });
+			v.push(FileSpec { codec, level: 0, sk, abs: abs.max(64 * 1024), ops: vec![x.clone(), Op::F, x.clone()], meta: 4 });
+			if thorough {
+				v.push(FileSpec { codec, level: 0, sk, abs: u32::MAX, ops: vec![x.clone(), x.clone(), Op::P], meta: 2 });
+				if codec.has_levels() {
+					for level in [1u8, 9] {
+						v.push(FileSpec { codec, level, sk, abs, ops: vec![x.clone()], meta: 0 });
+					}
+				}
+			}
+		}
 		if codec.has_levels() {
 			for level in [1u8, 9, 200] {
 				v.push(FileSpec { codec, level, sk: Sk::Rec, abs: 3000, ops: vec![Op::S, Op::Run { s: 9000, inc: true }, Op::P], meta: 2 });
@@ -249,6 +276,13 @@ fn run_w(spec: &FileSpec, thorough: bool, cover: &mut Cover, out: &mut Vec<Viola
 	}
 	if f.blocks.iter().any(|b| b.raw.len() > 8192) {
 		cover.count("W_files_with_block_stored_gt_8KiB", 1);
+	}
+	for b in &f.blocks {
+		for (t, name) in [(32 * 1024usize, "32KiB"), (64 * 1024, "64KiB"), (128 * 1024, "128KiB")] {
+			if b.raw.len() > t {
+				cover.count(&format!("W_blocks_stored_gt_{name}(codec={})", spec.codec.name()), 1);
+			}
+		}
 	}
 	if spec.meta == 4 && spec.codec == Codec::Snappy && spec.abs == 2 && spec.sk == Sk::Bytes && spec.ops == [Op::P, Op::P, Op::S] {
 		cover.sample(json!({"part": "W", "file": label, "bytes": bytes.len(), "metadata_keys": f.meta.iter().map(|(k, _)| k.clone()).collect::<Vec<_>>(), "blocks": f.blocks.iter().map(|b| (b.count, b.raw.len())).collect::<Vec<_>>()}));
@@ -650,7 +684,7 @@ fn run_a(a: &ApacheFile, cover: &mut Cover, out: &mut Vec<Violation>, verbose: b
 pub fn run(rep: &mut Report) {
 	let thorough = rep.thorough();
 	rep.rule = format!(
-		"SAE. W (writer side): files written by the crate (sync marker pinned) for ALL operation sequences of length <= {} over {{serialize, push_serialized(2), finish_block}} x 6 codecs x 5 schemas x (approx_block_size 2 x 6 user-metadata variants [none, empty map, {{k:v}} as strings, {{a.b:0xff}}, 3 keys, non-ASCII + reserved-prefix key] + approx_block_size 0 / 64 Ki), plus multi-block files with blocks of 8-70 KB and non-default levels; each taken apart by the independent parser: magic, metadata keys exactly avro.schema/avro.codec/user keys, avro.schema = schema.json() and JSON-equal to the source, avro.codec = specification name, user values intact, header sync = given marker = every block's sync, per-block count/size consistent with the datums, codec framing removed by independent decoders (libflate raw deflate, snap + big-endian CRC-32 of the uncompressed data, streaming bzip2/xz, zstd), values equal; then read back (values + user metadata) by the crate through slice / &[u8] BufRead / BufReader{}. R (reader side): files assembled by the independent writer: value sequences of 0..={} datums x ALL compositions into blocks, each also with one 0-object block at every position, x 6 codecs (+ null with avro.codec ABSENT) x 5 schemas x 4 metadata variants; ALL orders of <= 4 metadata keys (avro.schema, avro.codec, k, avro.extra) x map layouts (one block / one key per block / 1+rest / rest+1) x positive or negative(+byte size) counts x partitions {}; blocks of 8 KB-{} KB; read by the crate (3 reader kinds): values, end of stream twice, user metadata (non-reserved keys).{} Non-trivial: non-null codec, or >= 2 blocks, or user metadata / non-default metadata layout; distinct files.",
+		"SAE. W (writer side): files written by the crate (sync marker pinned) for ALL operation sequences of length <= {} over {{serialize, push_serialized(2), finish_block}} x 6 codecs x 5 schemas x (approx_block_size 2 x 6 user-metadata variants [none, empty map, {{k:v}} as strings, {{a.b:0xff}}, 3 keys, non-ASCII + reserved-prefix key] + approx_block_size 0 / 64 Ki), plus multi-block files with blocks of 8-70 KB and non-default levels, plus, for every codec, INCOMPRESSIBLE (xorshift) blocks whose stored size exceeds 32 KiB, 64 KiB and 128 KiB (the encoder's start buffer and its doublings) built from one big datum, from 48-140 noisy datums of 1000 bytes, and from runs of small datums, in [S,X,S] and [X,finish,X]; each taken apart by the independent parser: magic, metadata keys exactly avro.schema/avro.codec/user keys, avro.schema = schema.json() and JSON-equal to the source, avro.codec = specification name, user values intact, header sync = given marker = every block's sync, per-block count/size consistent with the datums, codec framing removed by independent decoders (libflate raw deflate, snap + big-endian CRC-32 of the uncompressed data, streaming bzip2/xz, zstd), values equal; then read back (values + user metadata) by the crate through slice / &[u8] BufRead / BufReader{}. R (reader side): files assembled by the independent writer: value sequences of 0..={} datums x ALL compositions into blocks, each also with one 0-object block at every position, x 6 codecs (+ null with avro.codec ABSENT) x 5 schemas x 4 metadata variants; ALL orders of <= 4 metadata keys (avro.schema, avro.codec, k, avro.extra) x map layouts (one block / one key per block / 1+rest / rest+1) x positive or negative(+byte size) counts x partitions {}; blocks of 8 KB-{} KB; read by the crate (3 reader kinds): values, end of stream twice, user metadata (non-reserved keys).{} Non-trivial: non-null codec, or >= 2 blocks, or user metadata / non-default metadata layout; distinct files.",
 		if thorough { 4 } else { 3 },
 		if thorough { "; every file (except zero-byte-datum files, which apache-avro refuses) is also read by apache-avro 0.17 (values and user metadata)" } else { "" },
 		if thorough { 6 } else { 4 },
@@ -736,6 +770,8 @@ pub fn run(rep: &mut Report) {
 	if thorough {
 		guards.extend(["W_files_read_back_by_apache_avro", "A_files(apache-avro writer)", "crate_reads_ok(writer=apache-avro)"]);
 	}
+	let per_codec: Vec<String> = Codec::ALL.iter().flat_map(|c| ["32KiB", "64KiB", "128KiB"].into_iter().map(move |t| format!("W_blocks_stored_gt_{t}(codec={})", c.name()))).collect();
+	guards.extend(per_codec.iter().map(|s| s.as_str()));
 	let mut cover = std::mem::take(&mut rep.cover);
 	c05::vacuity_guards("C06", rep, &mut cover, &guards);
 	rep.cover = cover;
